@@ -52,7 +52,10 @@ ASSUMPTIONS = [
 NAME_PARTS = ['Top', 'Chair Side', 'a.b', "it's", 'Desk #1', '{x}', '[1]',
               'back\\', 'a\\b', 'ünï', 'Ω', '  two  spaces', '100%', 'set',
               'end', 'begin', '8:00', '# not a comment', '-', '{', '[', 'not',
-              '(z)', 'x;y', 'tab\there', 'Lamp', 'Strip', 'Candle']
+              '(z)', 'x;y', 'tab\there', 'Lamp', 'Strip', 'Candle',
+              # control characters that are not line breaks
+              'form\x0cfeed', 'v\x0btab', 'fs\x1cgs\x1drs\x1eus\x1f', 'bell\x07',
+              'nbsp\xa0x', 'zero\u200bwidth']
 
 
 def random_name(rng, used):
@@ -101,11 +104,25 @@ def population(rng):
 
 
 def randomise(rng, devices):
+    """independent random colours, or -- as real lights usually are -- runs of
+    equal colours from a small palette shared by all lights of the population"""
+    palette = [colour(rng) for _ in range(rng.randint(1, 4))]
     for dev in devices:
-        dev.color = colour(rng)
+        dev.color = colour(rng) if rng.random() < 0.6 else list(
+            rng.choice(palette))
         dev.power = rng.choice([0, 65535])
-        dev.zones = [colour(rng) for _ in dev.zones]
-        dev.cells = [colour(rng) for _ in dev.cells]
+        for attr in ('zones', 'cells'):
+            cur = getattr(dev, attr)
+            if rng.random() < 0.5:
+                new = [colour(rng) for _ in cur]
+            else:
+                new, c = [], rng.choice(palette)
+                p_switch = rng.choice([0.0, 0.1, 0.3, 0.6])
+                for _ in cur:
+                    if rng.random() < p_switch:
+                        c = rng.choice(palette)
+                    new.append(list(c))
+            setattr(dev, attr, new)
 
 
 def captured_state(devices):
